@@ -58,15 +58,39 @@ def mc_configs(tier):
     return out
 
 
-_RE_FINAL = re.compile(r'^<< "C17FINAL",\n((?:[ \t].*\n)+)', re.M)
+_NOISE = re.compile(r'^(Progress\(|Checkpointing|Finished|Computing|Computed|Warning|TLC |Starting|Implied|Semantic|Parsing|Linting)')
 
 
 def final_records(stdout):
-    for m in _RE_FINAL.finditer(stdout):
-        txt = m.group(1).rstrip()
-        if not txt.endswith('>>'):
-            raise core.MachineryError('truncated C17FINAL record')
-        yield tlaval.parse_value(txt[:-2])
+    """the records printed by the Judge action: `<< "C17FINAL", [...] >>`, pretty-printed over several lines;
+    other TLC messages may be interleaved line-wise"""
+    lines = stdout.split('\n')
+    i, n = 0, len(lines)
+    while i < n:
+        if not lines[i].startswith('<< "C17FINAL",'):
+            i += 1
+            continue
+        buf, bal, j = [], 0, i
+        while j < n:
+            ln = lines[j]
+            if j > i and not ln[:1].isspace():
+                if _NOISE.match(ln) or ln == '':
+                    j += 1
+                    continue
+                break
+            buf.append(ln)
+            bal += ln.count('<<') - ln.count('>>')
+            j += 1
+            if bal == 0:
+                break
+        txt = '\n'.join(buf)
+        if bal != 0:
+            dbg = os.path.join(tlc.BUILD, 'c17-truncated-record.txt')
+            with open(dbg, 'w') as f:
+                f.write('\n'.join(lines[max(0, i - 3):j + 5]))
+            raise core.MachineryError('truncated C17FINAL record (context written to %s)' % dbg)
+        yield tlaval.parse_value(txt)[1]
+        i = j
 
 
 def run_tlc(ctx, name, c, mode='mc', num=0, depth=0):
@@ -165,7 +189,8 @@ def replay_graph(ctx, rec, scratch, idx, origin, style=None, corrupt=False, tabl
             if rec is None:
                 ctx.notes['set_order_not_in_enumeration'] = ctx.notes.get('set_order_not_in_enumeration', 0) + 1
                 return None
-            g, objs = rec['g'], objs2
+            g = rec['g']
+        objs = objs2        # node numbers follow python's iteration order of the sets
     fo, lk, h = rec['fo'], [list(x) for x in rec['lk']], rec['h']
     feature = graph_feature(g, objs)
     base = 'x' if (g[0]['k'] in ('none', 'int', 'box', 'arr', 'glob') or (idx + ctx.seed) % 2) else '/'
